@@ -57,7 +57,7 @@ func init() {
 	reg(propCfg{ID: "C01", Level: "exploration", Quick: q(16, 500), Thorough: th(16, 8000)})
 	reg(propCfg{ID: "C02", Level: "exploration", Quick: q(16, 2000), Thorough: th(16, 30000)})
 	reg(propCfg{ID: "C03", Level: "exploration", Quick: q(16, 2500), Thorough: th(16, 60000)})
-	reg(propCfg{ID: "C04", Level: "exploration", Quick: q(16, 4000), Thorough: th(16, 100000)})
+	reg(propCfg{ID: "C04", Level: "exploration", Quick: q(16, 4000), Thorough: th(16, 100000), Fuzz: []string{"FuzzC04"}, FuzzTime: 60 * time.Second})
 	reg(propCfg{ID: "C12", Level: "exploration", Quick: q(16, 2500), Thorough: th(16, 30000)})
 	reg(propCfg{ID: "C13", Level: "exploration", Quick: q(16, 2000), Thorough: th(16, 40000)})
 	reg(propCfg{ID: "C14", Level: "exploration", Quick: q(16, 1500), Thorough: th(16, 30000)})
@@ -67,10 +67,10 @@ func init() {
 	reg(propCfg{ID: "C20", Level: "exploration", Quick: q(16, 400), Thorough: th(16, 6000)})
 	reg(propCfg{ID: "C19", Level: "exploration", Quick: q(16, 1500), Thorough: th(16, 30000)})
 	reg(propCfg{ID: "C18", Level: "exploration", Quick: q(16, 3000), Thorough: th(16, 80000)})
-	reg(propCfg{ID: "C05", Level: "exploration", Quick: q(16, 3000), Thorough: th(16, 80000)})
-	reg(propCfg{ID: "C06", Level: "exploration", Quick: q(16, 3000), Thorough: th(16, 50000)})
-	reg(propCfg{ID: "C07", Level: "exploration", Quick: q(16, 2500), Thorough: th(16, 40000)})
-	reg(propCfg{ID: "C08", Level: "fault_enumeration", Quick: q(16, 6000), Thorough: th(16, 150000), MemLimitKB: 4 << 20, DeathIsViolation: true})
+	reg(propCfg{ID: "C05", Level: "exploration", Quick: q(16, 3000), Thorough: th(16, 80000), Fuzz: []string{"FuzzC05"}, FuzzTime: 60 * time.Second})
+	reg(propCfg{ID: "C06", Level: "exploration", Quick: q(16, 3000), Thorough: th(16, 50000), Fuzz: []string{"FuzzC06"}, FuzzTime: 60 * time.Second})
+	reg(propCfg{ID: "C07", Level: "exploration", Quick: q(16, 2500), Thorough: th(16, 40000), Fuzz: []string{"FuzzC07"}, FuzzTime: 60 * time.Second})
+	reg(propCfg{ID: "C08", Level: "fault_enumeration", Quick: q(16, 6000), Thorough: th(16, 150000), MemLimitKB: 4 << 20, DeathIsViolation: true, Fuzz: []string{"FuzzC08WKB", "FuzzC08TWKB", "FuzzC08WKT", "FuzzC08GeoJSON"}, FuzzTime: 45 * time.Second})
 	reg(propCfg{ID: "C09", Level: "exploration", Quick: q(16, 800), Thorough: th(16, 10000)})
 	reg(propCfg{ID: "C10", Level: "exploration", Race: true, Quick: q(16, 60), Thorough: th(16, 1500)})
 	reg(propCfg{ID: "C11", Level: "exploration", Quick: q(16, 5000), Thorough: th(16, 60000)})
@@ -606,9 +606,9 @@ func runFuzz(cfg propCfg, counters map[string]int64) (viol int, replayPath strin
 				src := filepath.Join(verifDir(), "props", strings.TrimSpace(rest))
 				dstDir := filepath.Join(verifDir(), "replays")
 				os.MkdirAll(dstDir, 0o755)
-				dst := filepath.Join(dstDir, cfg.ID+"-fuzz-"+target+"-"+filepath.Base(src))
+				dst := filepath.Join(dstDir, cfg.ID+"-fuzz-"+target+"-"+filepath.Base(src)+".json")
 				if b, e := os.ReadFile(src); e == nil {
-					os.WriteFile(dst, b, 0o644)
+					os.WriteFile(dst, fuzzCrasherToReplay(cfg.ID, target, b), 0o644)
 					os.Remove(src)
 				}
 				viol++
@@ -621,4 +621,29 @@ func runFuzz(cfg propCfg, counters map[string]int64) (viol int, replayPath strin
 		}
 	}
 	return
+}
+
+// fuzzCrasherToReplay converts a Go fuzz corpus file ("go test fuzz v1" + one
+// []byte line) into a replay case of the property.
+func fuzzCrasherToReplay(id, target string, corpus []byte) []byte {
+	var data []byte
+	for _, l := range strings.Split(string(corpus), "\n") {
+		l = strings.TrimSpace(l)
+		if strings.HasPrefix(l, "[]byte(") && strings.HasSuffix(l, ")") {
+			if u, err := strconv.Unquote(l[len("[]byte(") : len(l)-1]); err == nil {
+				data = []byte(u)
+			}
+		}
+	}
+	hexs := fmt.Sprintf("%x", data)
+	var c string
+	if id == "C08" {
+		format := map[string]string{"FuzzC08WKB": "wkb", "FuzzC08TWKB": "twkb", "FuzzC08WKT": "wkt", "FuzzC08GeoJSON": "geojson"}[target]
+		c = fmt.Sprintf(`{"format":%q,"hex":%q,"fault":"native-fuzz"}`, format, hexs)
+	} else {
+		c = fmt.Sprintf(`{"raw_hex":%q}`, hexs)
+	}
+	rf := h.ReplayFile{Property: id, Class: "native-fuzz/" + target, Case: json.RawMessage(c)}
+	b, _ := json.MarshalIndent(rf, "", " ")
+	return b
 }
